@@ -22,7 +22,7 @@ RULE = (
     "frozen or a nesting depth >= 2"
 )
 ASSUMPTIONS = ["the hostile optimiser adds 1 to every leaf it is handed; what it is handed is decided by the loops' partition"]
-WRAPPERS = ["BR", "Where", "WN", "Lambda", "NT"]
+WRAPPERS = ["BR", "Where", "WN", "Lambda", "NT", "LambdaIdx"]  # LambdaIdx: a Lambda that also holds an INTEGER array (non-floating leaves must be vectorised too)
 
 
 def bounds(tier):
@@ -80,6 +80,8 @@ def build_chain(chain, base, mask, want_ref=True):
                 node = W.Lambda(_rank_sensitive, node)
             elif w == "NT":
                 node = W.NonTrainable(node)
+            elif w == "LambdaIdx":
+                node = W.Lambda(_take_last, jnp.asarray(_perm_last(_shape_after(chain[:ci_], base))), node)
             continue
         if w == "BR":
             node, ref = W.BijectionReparam(node, B.SoftPlus(), invert_on_init=False), _softplus(ref)
@@ -93,7 +95,21 @@ def build_chain(chain, base, mask, want_ref=True):
             node, ref = W.Lambda(_rank_sensitive, node), 0.5 * ref @ ref.T + 1.0 + ref[0, 0]
         elif w == "NT":
             node, ref = W.NonTrainable(node), ref
+        elif w == "LambdaIdx":
+            idx = _perm_last(ref.shape)
+            node, ref = W.Lambda(_take_last, jnp.asarray(idx), node), np.take(ref, idx, axis=-1)
     return node, ref
+
+
+def _perm_last(shape):
+    return np.roll(np.arange(shape[-1]), 1)
+
+
+def _take_last(idx, a):
+    # NOT broadcast-safe in idx: a batched idx (constructed under vmap) gives a wrong shape / value unless unwrap maps over it too
+    import jax.numpy as jnp
+
+    return jnp.take(a, idx, axis=-1)
 
 
 def _rank_sensitive(a):
@@ -521,6 +537,15 @@ def _leg_methods(case, add):
         where = (lambda m: m.bijections[0]) if hasattr(b, "bijections") else (lambda m: m.bijection)
         wb = eqx.tree_at(where, b, replace_fn=W.NonTrainable)
         ub = unwrap(wb)
+        if s["k"] == "Chain":
+            # indexing / slicing a chain whose element is frozen as a whole must hand the marker on (the part is what gets trained later)
+            for what, part in (("chain[0]", lambda: wb[0]), ("chain[:1]", lambda: wb[:1]), ("chain[:2]", lambda: wb[:2]), ("chain[-2:]", lambda: wb[-2:])):
+                tr += 1
+                try:
+                    if _count_nt(part()) != 1:
+                        add(f"methods|frozen-child|Chain|{what}|marker-lost", f"Chain([NonTrainable(layer), ...]): {what} no longer contains the NonTrainable marker")
+                except Exception as e:
+                    add(f"methods|frozen-child|Chain|{what}|raises", f"Chain([NonTrainable(layer), ...]): {what} raises {type(e).__name__}: {str(e)[:100]}")
         x = jnp.full(ii.shape, 0.37)
         c = None if ii.cond_shape is None else jnp.full(ii.cond_shape, -0.6)
         for m in ("transform", "transform_and_log_det", "inverse", "inverse_and_log_det"):
